@@ -24,9 +24,9 @@
 (* key are interleaved with fits of other seeds and other data, and the    *)
 (* earliest keys are fitted again at the very end of the session.  Every   *)
 (* observation goes through FirstFail, i.e. CountOK, Usable, ShapeOK,      *)
-(* OobAvailable, PredictStable, LabelsOK, VoteOK, OobOK, Stratified,       *)
-(* MeanOK, RangeOK,                                                        *)
-(* InBagFit: the operators that are the invariant of the design models.    *)
+(* OobAnswers, SamplesObservable, PredictStable, LabelsOK, VoteOK, OobOK,  *)
+(* Stratified, MeanOK, RangeOK, InBagFit: the operators that are the       *)
+(* invariant of the design models.                                         *)
 (*                                                                         *)
 (* The spec never blocks: a failing event prints <<"BAD", line, run, ev,   *)
 (* clause>> and the run goes on.  `hits` counts, per clause, the events on *)
@@ -99,10 +99,15 @@ AsAsked(e) == /\ e.obs.treePred = e.expect.treePred
               /\ e.obs.y = e.expect.y
               /\ e.obs.keep => e.obs.mask = e.expect.mask
 
-ObsClause(e) == IF e.status # "ok" THEN "Assemble"
-                ELSE IF ~(CountOK(e.obs) /\ Usable(e.obs) /\ ShapeOK(e.obs)) THEN FirstFail(e.obs, FALSE, FALSE)
-                ELSE IF ~AsAsked(e) THEN "Assemble"
-                ELSE FirstFail(e.obs, FALSE, FALSE)
+\* A forest that was given a samples[] table (obs.keep) but does not answer predict_oob or
+\* no longer exposes the table fails OobAnswers / SamplesObservable -- property clauses --
+\* before the question whether it is the forest that was asked for is even put.
+ObsClauseFrom(e, basic) ==
+    IF basic # "" THEN basic
+    ELSE IF ~AsAsked(e) THEN "Assemble"
+    ELSE FirstFail(e.obs, FALSE, FALSE)
+
+ObsClause(e) == IF e.status # "ok" THEN "Assemble" ELSE ObsClauseFrom(e, FirstFailBasic(e.obs))
 
 SameAsModel(e) == /\ e.obs.pred = e.expect.pred
                   /\ e.obs.oobStatus = e.expect.oobStatus
